@@ -86,10 +86,44 @@ def _numview(x):
     return gen._num(x)   # total numeric view
 
 
+class Energy(float):
+    """A number with mutable attributes (a measured value that carries its tags): a subclass of
+    an immutable builtin is still an object that can be changed in place."""
+
+    def __new__(cls, x, tags=()):
+        self = float.__new__(cls, x)
+        self.tags = list(tags)
+        return self
+
+    def __reduce__(self):
+        return (Energy, (float(self), self.tags))
+
+    def __deepcopy__(self, memo):
+        return Energy(float(self), copy.deepcopy(self.tags, memo))
+
+    def __repr__(self):
+        return "Energy(%r, tags=%r)" % (float(self), self.tags)
+
+
+class Label(str):
+    def __new__(cls, x, tags=()):
+        self = str.__new__(cls, x)
+        self.tags = list(tags)
+        return self
+
+    def __reduce__(self):
+        return (Label, (str(self), self.tags))
+
+    def __deepcopy__(self, memo):
+        return Label(str(self), copy.deepcopy(self.tags, memo))
+
+
 def m_dapp(v):
     d = gen.data_of(v)
     if isinstance(d, list):
         d.append(len(d))
+    elif isinstance(d, (Energy, Label)):
+        d.tags.append(len(d.tags))
     return v
 
 
@@ -308,11 +342,16 @@ def rand_split_flow(rng):
     n = rng.choice([0, 1, 2, 3, 3, 4, 5, 6])
     fl = []
     bare = rng.random() < 0.15
+    # data that are instances of a subclass of float / str with a mutable attribute
+    attr_data = rng.random() < 0.12
     # contexts of class lena.context.Context (what the Context() element produces): a dict
     # subclass that the framework's deep copies must copy as deeply as a plain dict
     ctxcls = rng.random() < 0.2
     for i in range(n):
         d = [rng.randint(0, 9)] + ([rng.randint(0, 9)] if rng.random() < 0.4 else [])
+        if attr_data:
+            d = {"E": rng.randint(0, 9) + 0.5, "tags": [i]} if rng.random() < 0.7 else \
+                {"S": "s%d" % rng.randint(0, 9), "tags": []}
         if bare or rng.random() < 0.1:
             fl.append({"d": d, "c": None})
         else:
@@ -327,6 +366,10 @@ def mkflow(fr):
     out = []
     for v in fr:
         d = copy.deepcopy(v["d"])
+        if isinstance(d, dict) and "E" in d:
+            d = Energy(d["E"], d.get("tags", ()))
+        elif isinstance(d, dict) and "S" in d:
+            d = Label(d["S"], d.get("tags", ()))
         if v["c"] is None:
             out.append(d)
         else:
@@ -613,6 +656,9 @@ def snap(v):
         return ["L"] + [snap(x) for x in v]
     if isinstance(v, dict):
         return {str(k): snap(x) for k, x in sorted(v.items(), key=lambda kv: str(kv[0]))}
+    if isinstance(v, (Energy, Label)):
+        return [type(v).__name__, repr(float(v)) if isinstance(v, Energy) else str(v),
+                snap(v.tags)]
     if isinstance(v, bool) or v is None or isinstance(v, (int, str)):
         return v
     if isinstance(v, float):
@@ -980,3 +1026,5 @@ MAX_PER_MECH = 4   # the worker keeps at most 200 violations: one mechanism must
 RULE += (' Run-driven Splits also contain Source branches and fill branches that stop (Slice through fill_into) after mutating their block; a fifth of the flows carry contexts of class lena.context.Context; part (b) includes Vectorize over multi-result components and Mean over sum sequences that yield several values.')
 RULE += (' Branches of one program also share one typed Variable object (as an element and as the '
          'argument variable of a SplitIntoBins accumulator in a fill/compute branch).')
+RULE += (' Data are also instances of subclasses of float / str that carry a mutable attribute '
+         '(changed in place by the data mutators).')
